@@ -178,8 +178,8 @@ Definition stream_ok (s : list outcome) := forall c v, In (c, v) s -> v = false 
 Lemma smas_app l1 l2 : smas (l1 ++ l2) = smas l1 ++ smas l2.
 Proof. apply map_app. Qed.
 
-Lemma fit_isophote_spec mr sma noiter l s i l1 s1 :
-  fit_isophote Qnum mr sma noiter l s = Some (i, l1, s1) -> stream_ok s ->
+Lemma fit_isophote_spec mr sma noiter tok l s i l1 s1 :
+  fit_isophote Qnum mr sma noiter tok l s = Some (i, l1, s1) -> stream_ok s ->
   i_sma Qnum i = sma /\ (i_valid Qnum i = false -> i_code Qnum i = 3%Z) /\
   l1 = (if i_valid Qnum i then l ++ [i] else l) /\ stream_ok s1.
 Proof.
@@ -205,7 +205,7 @@ Proof.
   rewrite <- (rev_involutive l), E. reflexivity.
 Qed.
 
-Lemma fix_last_smas (l l' : list isoQ) : fix_last Qnum l = Some l' -> smas l' = smas l.
+Lemma fix_last_smas first (l l' : list isoQ) : fix_last Qnum first l = Some l' -> smas l' = smas l.
 Proof.
   unfold fix_last. destruct (rev l) as [|i r] eqn:E.
   - intros H; inversion H; auto.
@@ -258,7 +258,7 @@ Proof.
   unfold out_failure.
   destruct ((i_code Qnum i <? 0)%Z || (i_code Qnum i =? 1)%Z); auto.
   destruct (length l1 =? 1)%nat; auto.
-  destruct (fix_last Qnum l1) as [l2|] eqn:E; auto. apply fix_last_smas in E.
+  destruct (fix_last Qnum false l1) as [l2|] eqn:E; auto. apply fix_last_smas in E.
   destruct (last_opt Qnum l2); auto.
   destruct ((2 <? length l2)%nat && _); auto.
   destruct maxsma as [t|]; auto. destruct (truthy Qnum t && _); auto.
@@ -273,8 +273,8 @@ Lemma outward_inv : forall fuel sma noiter first l s calls,
   end.
 Proof.
   induction fuel as [|f IH]; intros sma noiter first l s calls Hs HI; simpl; auto.
-  destruct (fit_isophote Qnum maxrit sma noiter l s) as [[[i l1] s1]|] eqn:Hf; auto.
-  destruct (fit_isophote_spec _ _ _ _ _ _ _ _ Hf Hs) as (Hsma & Hval & Hl1 & Hs1).
+  destruct (fit_isophote Qnum maxrit sma noiter (Z.of_nat (length (calls ++ [mkcall Qnum sma noiter false first]))) l s) as [[[i l1] s1]|] eqn:Hf; auto.
+  destruct (fit_isophote_spec _ _ _ _ _ _ _ _ _ Hf Hs) as (Hsma & Hval & Hl1 & Hs1).
   assert (HD1 : OD (smas l1)).
   { subst l1. destruct (i_valid Qnum i).
     - rewrite smas_app. simpl. rewrite Hsma. apply OI_OD_full; auto.
@@ -354,9 +354,9 @@ Proof.
   change (pymax Qnum minsma (1 # 2)) with mx. destruct (Qltb mx sma) eqn:Hm; simpl.
   2:{ exists li. split; auto. eapply II_ID; eauto. }
   apply Qltb_iff in Hm.
-  destruct (fit_isophote Qnum maxrit sma false l s) as [[[i l1] s1]|] eqn:Hf; auto.
-  destruct (fit_isophote_spec _ _ _ _ _ _ _ _ Hf Hs) as (Hsma & Hval & Hl1 & Hs1).
-  destruct (if (i_code Qnum i <? 0)%Z then fix_last Qnum l1 else Some l1) as [l2|] eqn:Hfx; auto.
+  destruct (fit_isophote Qnum maxrit sma false (Z.of_nat (length (calls ++ [mkcall Qnum sma false true false]))) l s) as [[[i l1] s1]|] eqn:Hf; auto.
+  destruct (fit_isophote_spec _ _ _ _ _ _ _ _ _ Hf Hs) as (Hsma & Hval & Hl1 & Hs1).
+  destruct (if (i_code Qnum i <? 0)%Z then fix_last Qnum true l1 else Some l1) as [l2|] eqn:Hfx; auto.
   assert (Hsm : smas l2 = smas l1).
   { destruct (i_code Qnum i <? 0)%Z; [apply fix_last_smas; auto|inversion Hfx; auto]. }
   destruct (i_valid Qnum i) eqn:Hv.
@@ -586,7 +586,7 @@ Variables (lin : bool) (step minsma : N) (maxsma maxrit : option N) (top_test : 
 Lemma outward_S f sma noiter first l s calls :
   outward N lin step maxsma maxrit (S f) sma noiter first l s calls =
   let calls := calls ++ [mkcall N sma noiter false first] in
-  match fit_isophote N maxrit sma noiter l s with
+  match fit_isophote N maxrit sma noiter (Z.of_nat (length calls)) l s with
   | None => PStop N (Starved N) calls
   | Some (i, l1, s1) =>
       match out_failure N maxsma i l1 noiter with
@@ -618,7 +618,7 @@ Proof.
   - rewrite (outward_S f sma noiter first l s calls) in H.
     rewrite (outward_S (S f) sma noiter first l s calls), (outward_S f sma noiter first l s calls).
     cbv zeta in *.
-    destruct (fit_isophote N maxrit sma noiter l s) as [[[i l1] s1]|]; auto.
+    destruct (fit_isophote N maxrit sma noiter _ l s) as [[[i l1] s1]|]; auto.
     destruct (out_failure N maxsma i l1 noiter); auto.
     destruct (last_opt N l0); auto.
     destruct maxsma as [m|].
@@ -630,10 +630,10 @@ Lemma inward_S f sma istep l s calls :
   inward N lin minsma maxrit top_test (S f) sma istep l s calls =
   if top_test && negb (ltb N (pymax N minsma (n05 N)) sma) then PDone N l s calls else
   let calls := calls ++ [mkcall N sma false true false] in
-  match fit_isophote N maxrit sma false l s with
+  match fit_isophote N maxrit sma false (Z.of_nat (length calls)) l s with
   | None => PStop N (Starved N) calls
   | Some (i, l1, s1) =>
-      match (if (i_code N i <? 0)%Z then fix_last N l1 else Some l1) with
+      match (if (i_code N i <? 0)%Z then fix_last N true l1 else Some l1) with
       | None => PStop N (IndexErr N) calls
       | Some l2 =>
           if (i_code N i =? 3)%Z then PDone N l2 s1 calls
@@ -659,8 +659,8 @@ Proof.
     rewrite (inward_S (S f) sma istep l s calls), (inward_S f sma istep l s calls).
     cbv zeta in *.
     destruct (top_test && negb (ltb N (pymax N minsma (n05 N)) sma)); auto.
-    destruct (fit_isophote N maxrit sma false l s) as [[[i l1] s1]|]; auto.
-    destruct (if (i_code N i <? 0)%Z then fix_last N l1 else Some l1); auto.
+    destruct (fit_isophote N maxrit sma false _ l s) as [[[i l1] s1]|]; auto.
+    destruct (if (i_code N i <? 0)%Z then fix_last N true l1 else Some l1); auto.
     destruct (i_code N i =? 3)%Z; auto.
     destruct (last_opt N l0); auto.
     destruct (negb top_test && leb N (update_sma N lin (i_sma N i0) istep) (pymax N minsma (n05 N))); auto.
